@@ -123,6 +123,19 @@ example :
     s.drv = .endedOk ∧ s.ops.map (·.mail) = [.frame ⟨1, 11, 7, true⟩, .ack, .dropped] ∧ chanOpen s 0 = false := by
   decide
 
+/-- The driver task owns the transport (`self.stream` of `LdapConnAsync`): the peer sees it closed when
+an Unbind shut it down, or when the driver has ended and dropped it. -/
+def transportClosed (s : St) : Prop := s.sinkClosed = true ∨ s.drv ≠ .running
+
+/-- dropping the last handle closes the transport: once every handle is gone the driver leaves its
+loop — at once through the misc channel, or through the request channel when its queue is empty —
+and with it the transport goes -/
+theorem C04_drop_closes_transport (s : St) (hr : s.drv = .running) (hh : s.handles = false) :
+    (∃ s', step s .drvMiscClosed = some (s', .none) ∧ transportClosed s') ∧
+    (s.opQ = [] → ∃ s', step s .drvOpClosed = some (s', .none) ∧ transportClosed s') := by
+  refine ⟨⟨endDriver s .endedOk, by simp [step, hr, hh], Or.inr (by simp [endDriver])⟩, fun hq => ?_⟩
+  exact ⟨endDriver s .endedOk, by simp [step, hr, hh, hq], Or.inr (by simp [endDriver])⟩
+
 /-- **whole histories**: a caller waiting with an empty reply slot is known to the driver -/
 theorem C04_waiting_is_registered (N : Nat) (evs : List Ev) (hf : FreshRun2 (init N) evs) (i : Nat) (o : Op)
     (ho : (run (init N) evs).ops[i]? = some o) (hp : o.phase = .taken) (hm : o.mail = .empty) :
